@@ -50,7 +50,7 @@ func liveToV(x zygo.Sexp, depth int) *V {
 		}
 		return v
 	case *zygo.SexpArray:
-		v := &V{K: 'A'}
+		v := &V{K: 'A', NoEnv: t.Env == nil}
 		for _, e := range t.Val {
 			c := liveToV(e, depth+1)
 			if c == nil {
@@ -82,6 +82,11 @@ func liveToV(x zygo.Sexp, depth int) *V {
 }
 
 func scrCase(env *zygo.Zlisp, expr string, tags ...string) {
+	scrCaseP(env, expr, "scr", tags...)
+}
+
+// scrCaseP: prefix "scr" = printed plainly, "pts" = printed under (pretty true)
+func scrCaseP(env *zygo.Zlisp, expr string, prefix string, tags ...string) {
 	r := lib.Eval(env, expr, 200000)
 	if r.Class != lib.OutValue {
 		env.Clear()
@@ -91,7 +96,7 @@ func scrCase(env *zygo.Zlisp, expr string, tags ...string) {
 	if v == nil {
 		return
 	}
-	valCaseSexp(env, v, r.Val, "scr", encStr("", expr)[1:]+" ", true, true, tags...)
+	valCaseSexp(env, v, r.Val, prefix, encStr("", expr)[1:]+" ", true, true, tags...)
 }
 
 var scrContents = []string{"a", "b c", "%", "50% done", "%d", "x`y", "`", "``", "tick ` tock", "q\"r", "back\\slash", "tab\tx", "é", "λ😀", "", " ", "a:b", "{k:1}", "[1 2]", "(+ 1 2)", "// no", "/* c */", "#", "~@", "nl\nx", "a\n\nb", "a\n   \nb", "\n\nlead", "trail\n\n", "\n", "p1\n\t\np2 `", "x\n \n\n y"}
